@@ -72,12 +72,15 @@ Theorem C03_rrtconnect_resumed_solves_report_real_paths :
   RrtConnectProofs.TInv St mvS mvG false goals (c_tg St D (fst (rc_solves St D dist dlt steer mvS mvG gdist goals dflt fuel starts calls))).
 Proof. exact rc_solves_spec. Qed.
 (* LazyLBTRRT's incremental shortest-path structure (LPAstarOnGraph, LpaModel.v): with the repaired queue-removal rule, after EVERY
-   history of edge insertions, removals and shortest-path computations (any graph, any heuristic), a node's isInQueue flag is true
-   exactly when the queue holds it, it holds it once, and node identities are unique *)
-Theorem C03_lpastar_queue_bookkeeping_after_every_history :
+   history of edge insertions, removals and shortest-path computations (any graph, any heuristic): node identities are unique, a
+   node's isInQueue flag is true exactly when the queue holds it, it holds it once (BInv), and every node whose cost-to-come differs
+   from its one-step look-ahead value is queued (CInv []) — the property whose failure under the pinned rule left stale costs
+   behind and let the parent pointers form a cycle *)
+Theorem C03_lpastar_queue_invariants_after_every_history :
   forall (hfun : nat -> Z) src tgt fuel, src <> tgt -> forall ops,
-  BInv (fold_left (fun s o => fst (lpa_step false hfun fuel s o)) ops (lpa_init hfun src tgt)).
-Proof. exact lpa_history_inv. Qed.
+  let s := fold_left (fun s o => fst (lpa_step false hfun fuel s o)) ops (lpa_init hfun src tgt) in
+  BInv s /\ CInv [] s.
+Proof. exact lpa_history_winv. Qed.
 Theorem C03_admission_sound : forall r, admissible r = true ->
   (is_solution_status (r_status r) = true -> C01_solution r) /\
   (is_solution_status (r_status r) = false -> r_paths_after r = r_paths_before r).
@@ -92,7 +95,7 @@ Print Assumptions C03_after_clear_only_current_starts.
 Print Assumptions C03_goal_samples_bounded.
 Print Assumptions C03_rrt_family_resumed_solves_report_real_paths.
 Print Assumptions C03_rrtconnect_resumed_solves_report_real_paths.
-Print Assumptions C03_lpastar_queue_bookkeeping_after_every_history.
+Print Assumptions C03_lpastar_queue_invariants_after_every_history.
 Print Assumptions C03_admission_sound.
 
 Example C03_nonvacuous :
